@@ -428,14 +428,15 @@ func concStr(m *M, v Value) (string, bool) {
 	return s.s, s.conc
 }
 
-// sync/atomic: goroutines run to completion between blocking points, so an atomic operation is a plain load / store that
-// does not take part in the footprint race check (atomic accesses never race with each other; a plain access to the same
-// word elsewhere is still recorded there and would be compared with nothing - stated in DESIGN.md 9.2).
+// sync/atomic: goroutines run to completion between blocking points, so an atomic operation is a plain load / store; in
+// the footprint race check atomic accesses never conflict with each other but do conflict with a plain access to the
+// same word by another goroutine.
 func atomicLoad(m *M, fn *ssa.Function, a []Value) Value {
 	p := m.force(a[0]).(Ptr)
 	if p.obj == nil {
 		panic(goPanic{msg: "invalid memory address or nil pointer dereference"})
 	}
+	m.recordAtomic(p, false)
 	return copyVal(*m.slot(p))
 }
 func atomicStoreRaw(m *M, p Ptr, v Value) {
@@ -445,6 +446,7 @@ func atomicStoreRaw(m *M, p Ptr, v Value) {
 	if m.merging > 0 {
 		panic(mergeAbort{"atomic store"})
 	}
+	m.recordAtomic(p, true)
 	*m.slot(p) = copyVal(v)
 }
 func atomicStore(m *M, fn *ssa.Function, a []Value) Value {
